@@ -90,7 +90,7 @@ def check_file(conv_idx, op, table, column, header, sep, strict, passthrough, am
     fails = []
     conv = CONVERTERS[conv_idx]()
     rows = rows_of(table, column, conv_idx, shift)
-    head = ['h"1', "h 2"]
+    head = ['h"1', "h 2"] if header != "multiline" else ["multi\nline", 'q"']
     path = os.path.join(tmpdir(), f"{os.getpid()}.tsv")
     with open(path, "w", newline="", encoding="utf-8") as fh:
         w = csv.writer(fh, delimiter=sep)
@@ -115,7 +115,7 @@ def check_file(conv_idx, op, table, column, header, sep, strict, passthrough, am
         new[column] = v if v is not None else ""
         expected.append(new)
     try:
-        getattr(conv, op)(path, column, sep=sep, header=header, strict=strict, passthrough=passthrough, ambiguous=ambiguous)
+        getattr(conv, op)(path, column, sep=sep, header=bool(header), strict=strict, passthrough=passthrough, ambiguous=ambiguous)
         exc = None
     except BaseException as e:  # noqa
         exc = e
@@ -177,12 +177,12 @@ def check_pd(conv_idx, op, cells, column_pos, labelled, target, strict, passthro
         row[column_pos] = c
         row[1 - column_pos] = OTHER[i % len(OTHER)]
         rows.append(row)
-    labels = ["c0", "c1", "c2"] if labelled else [0, 1, 2]
+    labels = {True: ["c0", "c1", "c2"], False: [0, 1, 2], "shuffled-ints": [2, 0, 1]}[labelled]
     n_ = len(rows)
     index = {"range": None, "reversed": list(range(n_ - 1, -1, -1)), "offset": list(range(10, 10 + n_)), "strings": [f"r{n_ - i}" for i in range(n_)]}[index_kind]
     df = pd.DataFrame(rows, columns=labels, index=index)
     column = labels[column_pos]
-    tgt = {"none": None, "new": ("t" if labelled else 7), "other": labels[1 - column_pos], "empty-label": ""}[target]
+    tgt = {"none": None, "new": ("t" if labelled is True else 7), "other": labels[1 - column_pos], "empty-label": ""}[target]
     before = df.copy(deep=True)
     f = scalar_for(conv, op, ambiguous)
     expected, err, pos = scalar_results(f, cells, strict, passthrough)
@@ -265,7 +265,7 @@ def file_cases(table):
     for conv_idx in (0, 1):
         for op in ("file_compress", "file_expand"):
             for column in (0, 1):
-                for header in (True, False):
+                for header in (True, False, "multiline"):
                     for sep in ("\t", ","):
                         if conv_idx == 1 and sep == ",":
                             continue
@@ -279,8 +279,8 @@ def pd_cases(tier):
     for cells in tabs:
         for op in PD_OPS:
             for column_pos in (0, 1):
-                for labelled in (True, False):
-                    for target in ("none", "new", "other") + (("empty-label",) if labelled else ()):
+                for labelled in (True, False, "shuffled-ints"):
+                    for target in ("none", "new", "other") + (("empty-label",) if labelled is True else ()):
                         for strict, passthrough, ambiguous in FLAGS:
                             if ambiguous and op not in ("pd_compress", "pd_expand"):
                                 continue
